@@ -388,6 +388,16 @@ def rule_occurrence(ck, F, X):
                         cause = f"required-member-emitted-{got}"
                     bad.setdefault((label, cause), []).append((tag, dict(a), got, want))
     ck.count("R2:truth-table rows", n_rows)
+    # what was decided where the member was read is final: no occurrence flag of an existing Field is written afterwards (the table
+    # above is about the constructor sites; a later `field.is_optional = ..` would make it say nothing)
+    flag_writes = [h for h in scans.struct_value_writers(F.lib, "model::field::Field", ["is_optional", "is_vec", "is_attribute", "is_choice", "rust_type"])
+                   if "yaserde_tests" not in h[0] and "::tests::" not in h[0]]
+    for (fn_, site_, fld_, how_) in flag_writes:
+        ck.violation("R2", f"flags-rewritten:{fld_}", site_,
+                     f"{fn_.rsplit('::', 1)[-1]} changes `{fld_}` of a member after it was read from its declaration ({how_}): the member's "
+                     f"Option / Vec / bare shape is no longer the one the occurrence attributes of the schema give it")
+    if not flag_writes:
+        ck.ok("R2", "flags-final", "-", "no occurrence flag of an existing Field value is written after construction")
     for (label, cause), rows in sorted(bad.items()):
         tag, a, got, want = rows[0]
         ck.violation("R2", f"{label}:{cause}", [s for s in sites][0][1],
@@ -516,7 +526,42 @@ REQUIRED_DISPATCH = {     # role (rules/anchors.complex_readers) -> child tags t
 }
 
 
+POSITIONAL_PICKS = ("roxmltree::Node::<'a, 'input>::first_element_child", "roxmltree::Node::<'a, 'input>::last_element_child",
+                    "roxmltree::Node::<'a, 'input>::first_child", "roxmltree::Node::<'a, 'input>::last_child",
+                    "roxmltree::Node::<'a, 'input>::next_sibling_element", "roxmltree::Node::<'a, 'input>::prev_sibling_element",
+                    "roxmltree::Node::<'a, 'input>::next_sibling", "roxmltree::Node::<'a, 'input>::prev_sibling")
+
+
+def rule_children_by_name(ck, F):
+    """The content model of XSD components allows optional children before and after the one a reader looks for (`annotation` in
+    front; `unique` / `key` / `keyref` after the type of an element; `attribute`s after a `sequence`). A reader that takes a child by
+    its position — the first or last element child, a sibling — takes the wrong one, or none, for schemas that use those options,
+    and the declared type or member is silently dropped. Zero-count scan over the resolved calls of the library (not the tests)."""
+    from engine.rulekit import mir as M
+    n_bodies = 0
+    hits = []
+    for b in scans.bodies(F.lib):
+        if "yaserde_tests" in b["path"] or "::tests::" in b["path"] or "helpers_content" in b["path"]:
+            continue
+        n_bodies += 1
+        B = M.Body(b)
+        for bb, t in B.calls():
+            d = M.Body.callee_decl(t) or ""
+            if d in POSITIONAL_PICKS:
+                hits.append((b["path"], B.term(bb).get("sp"), d))
+    ck.count("R4:bodies scanned for positional child selection", n_bodies)
+    for fn, site, d in hits:
+        short = fn.rsplit("::", 1)[-1] if not fn.startswith("<") else fn.split(" as ")[0].rsplit("::", 1)[-1] + "::" + fn.rsplit("::", 1)[-1]
+        ck.violation("R4", f"child-by-position:{short}:{d.rsplit('::', 1)[-1]}", site,
+                     f"{short} takes a child by its position (`{d.rsplit('::', 1)[-1]}`): where the schema has an optional child in that place "
+                     f"(an annotation in front, identity constraints or attributes behind) another child is taken, or none, and the declared "
+                     f"component is dropped", fn=short)
+    if not hits:
+        ck.ok("R4", "children-by-name", "-", f"no reader selects a child by position ({n_bodies} bodies)")
+
+
 def rule_dispatch(ck, F, X):
+    rule_children_by_name(ck, F)
     roles = A.complex_readers(F)
     for role_ in REQUIRED_DISPATCH:
         if A.role_path(roles, role_) is None:
